@@ -464,7 +464,9 @@ def leaf_values(spec):
     ).map(lambda cv: (cv[0], copy.deepcopy(cv[1])))
 
 
-RANDOM_KEYS = ["zzz", "x", "", " ", "T1", "t 1", "ключ", "a.b", "{x}", "did you mean", "a\nb", "enabled ", "__x"]
+RANDOM_KEYS = ["zzz", "x", "", " ", "T1", "t 1", "ключ", "a.b", "{x}", "did you mean", "a\nb", "enabled ", "__x",
+               # every character str.splitlines() treats as a line boundary (messages are joined and split on "\n" ONLY)
+               "a\rb", "a\r\nb", "a\x0bb", "a\x0cb", "a\x1cb", "a\x1db", "a\x1eb", "a\x85b", "a\u2028b", "a\u2029b"]
 NONSTR_KEYS = [0, 1, 7, -3, None, True, False, (1, 2), ("a",), (), 1.5, NAN, BIG]
 TOP_TYPOS = ["t5", "t0", "grap", "perfs", "schedular", "versoin", "flag", "t", "k_surfac"]
 SECTION_REPLACEMENTS = [None, 5, "abc", [], [1, 2], [{"a": 1}], True, 0.0, NAN, {}, ""]
